@@ -150,6 +150,17 @@ func (h *histRun) buildNamed(name string, i int, op *opSpec, pc procCfg, hook fu
 	if op.DryNil {
 		bo.DryThenNil = 1 + op.N%2
 	}
+	bo.GCAfter = op.GCAfter
+	if op.Twice && op.Between != nil {
+		between := *op.Between
+		bo.Between = func() {
+			if h.w.running > 0 {
+				h.w.ctx.St.Probes["bodies_still_running_when_the_failed_run_returned"]++
+			}
+			h.edit(i, &between)
+			h.w.ctx.St.Count("edits_between_two_runs_of_one_process", 1)
+		}
+	}
 	if op.Keep && h.lastProj != nil && !h.lastIndex && !h.codeEdited && sameArgs(h.lastArgs, bo.Args) {
 		bo.Keep = h.lastProj
 		h.w.ctx.St.Count("run_again_on_loaded_project", 1)
